@@ -179,6 +179,7 @@ def key_of(spec, check, symptom=None):
     # memory behaviour of the preconditioner's return value (what the aliasing findings are keyed on)
     pa = k["pre_alias"]
     k["pre_returns"] = {"arg": "argument-storage", "view": "argument-storage", "expand": "overlapping-view"}.get(pa, "fresh" if pa != "n/a" else "n/a")
+    k["max_iter"] = "1" if spec.get("max_iter") == 1 else ("default" if spec.get("max_iter") is None else ">1")
     if symptom:
         k["symptom"] = symptom
     return k
@@ -206,8 +207,22 @@ def run_systems(ctx, systems, say=True):
             cnt["impl_calls"] += 1
             runs.append((sp, obs))
         cnt["systems"] += 1
-        fs, ne = P.check_system(spec, T, runs, cnt)
+        try:
+            fs, ne = P.check_system(spec, T, runs, cnt)
+        except Exception as ex:     # outputs the oracle cannot even interpret (wrong shapes ...): that is a failing input
+            import traceback
+            fs, ne = [P.fail(runs[-1][0] if runs else spec, "malformed-output",
+                             "the property predicates could not be evaluated on the outputs: %r" % (ex,),
+                             detail=traceback.format_exc()[-800:], symptom="malformed-output")], 1
         cnt["pred_evals"] += ne
+        # scaling law on the implementation: one more call with 4 * rhs (and 4 * initial guess) at the largest budget
+        if runs and not spec.get("poison") and spec.get("x0") != "nan" and spec.get("mc", "callable") in ("callable", "tensor"):
+            sp_l, obs_l = runs[-1]
+            obs_c = S.run_impl(sp_l, T, rhs_scale=4.0)
+            cnt["impl_calls"] += 1
+            f2, n2 = P.check_scaling(sp_l, T, obs_l, obs_c, 4.0)
+            fs += f2
+            cnt["pred_evals"] += n2
         for f in fs:
             fails.append((spec, T, f))
         cases.append((si, spec, T, runs))
@@ -231,7 +246,11 @@ def write_shards(ctx, cases, per_shard_budget=None):
             if sp.get("coq", True) is False:
                 continue
             nm = "%s_c%d" % (sysname, ri)
-            defs.append("Definition %s : case := %s." % (nm, case_lit(sp, T, obs, sysname, level, tol)))
+            try:
+                lit = case_lit(sp, T, obs, sysname, level, tol)
+            except (RuntimeError, ValueError, IndexError):
+                continue            # outputs of unexpected shape: reported by the direct predicates (malformed-output / shape)
+            defs.append("Definition %s : case := %s." % (nm, lit))
             names.append((nm, si, ri))
             its = len(obs["mm_calls"]) if obs["mm_calls"] else (sp.get("max_iter") or 12)
             cost += (its + 1) * C * (n * n * (2 if T["Minv"] is not None else 1) + 14 * n * (n / 2 + 4))
